@@ -47,6 +47,9 @@ class CaseBlockCompileHandler(
 ):
     """Handles a switch case block for a switch."""
 
+    # The previous case may fall through into this one.
+    _merge_single_jump_into_headers = False
+
     def __init__(self, ctx: ExplorerScriptParser.Single_case_blockContext, compiler_ctx: CompilerCtx):
         super().__init__(ctx, compiler_ctx)
         self._case_header_handler: CaseHeaderCompileHandler | None = None
